@@ -960,6 +960,12 @@ func (ex *Exec) evalCall(st *State, n *node, e *env) Val {
 		return term(sel(sel(st.region("G!recvd!"+s, arr("Int", arr("Int", s))), ch.T), i.T), et)
 	case "chancap":
 		return term(sel(st.region("G!chancap", arr("Int", "Int")), arg(0).T), tInt)
+	case "tokens":
+		// tokens(ch): messages queued in ch plus goroutines spawned that will still send one (token-tracked channels)
+		return term(sel(st.region("G!tokens", arr("Int", "Int")), arg(0).T), tInt)
+	case "pathjoin":
+		ex.declareFunRaw("pathjoin", "(String String) String")
+		return term("(pathjoin "+arg(0).T+" "+arg(1).T+")", tString)
 	case "pending":
 		return term("(- "+sel(st.region("G!sentlen", arr("Int", "Int")), arg(0).T)+" "+sel(st.region("G!recvlen", arr("Int", "Int")), arg(0).T)+")", tInt)
 	case "tickperiod":
